@@ -29,6 +29,14 @@ func validStream(c *Case, res *Result, o GenOpts, maxBlocksFn func(cfg Config) i
 		cfg.DecJobs = min(cfg.DecJobs, 2)
 	}
 	rec := GenDataRecipe(t, cfg.BlockSize, maxBlocks)
+	if o.Geometry {
+		if g := Geometry(t, &cfg, &rec, c.Thorough()); g != "" {
+			res.Probes["geometry."+g]++
+			if g == "manyblocks" && t.Intn(2) == 0 {
+				cfg.DecJobs = []int{2, 3, 64, 63, 16}[t.Intn(5)]
+			}
+		}
+	}
 	data = rec.Bytes()
 	hintValue(&cfg, len(data), t)
 	res.Cfg = cfg.Sig() + "/" + rec.Shape
@@ -107,7 +115,7 @@ func C05(c *Case) *Result {
 	if c.Thorough() {
 		maxJobs = 64
 	}
-	cfg, data, stream, parsed, ok := validStream(c, res, GenOpts{Cheap: t.Intn(8) != 0, MaxJobs: maxJobs, MaxBlock: 8192, ExactHint: true, Headerless: true, MaxChain: 4},
+	cfg, data, stream, parsed, ok := validStream(c, res, GenOpts{Cheap: t.Intn(8) != 0, MaxJobs: maxJobs, MaxBlock: 8192, ExactHint: true, Headerless: true, MaxChain: 4, Geometry: true},
 		func(cfg Config) int { return min(3*cfg.DecJobs+2, 70) })
 	if !ok {
 		return res
